@@ -51,7 +51,7 @@ type member struct {
 
 	unrel    *unrelT // nil: AsUnreliable answers (nil,false)
 	closeErr error
-	yields   int                         // scheduling points inside Write (widens the window under the library's read lock)
+	yields   int                        // scheduling points inside Write (widens the window under the library's read lock)
 	onWrite  func(m *member, bs []byte) // optional reaction (used by the ConnConfig workload)
 }
 
